@@ -307,6 +307,7 @@ type fctx struct {
 	lbMemo      map[ssa.Value][2]int
 	fieldCanon  map[string]ssa.Value
 	fieldStored map[string]bool
+	fieldStores map[string][]*ssa.Store
 	budget      int
 }
 
@@ -607,6 +608,12 @@ func pathKey(v ssa.Value, depth int) string {
 			return ""
 		}
 		return "*" + b
+	case *ssa.Lookup, *ssa.Extract, *ssa.Call, *ssa.TypeAssert, *ssa.Phi:
+		// an SSA value of pointer type never changes: the fields reached from it are as stable a path as
+		// those reached from a parameter (`xlam := m[name]; if len(xlam.Forms) != 1 {return}; xlam.Forms[0]`)
+		if _, ok := v.Type().Underlying().(*types.Pointer); ok && depth > 0 {
+			return fmt.Sprintf("V%p", v)
+		}
 	}
 	return ""
 }
@@ -619,6 +626,7 @@ func (fc *fctx) canonicalFieldLoad(u *ssa.UnOp) ssa.Value {
 	if fc.fieldCanon == nil {
 		fc.fieldCanon = map[string]ssa.Value{}
 		fc.fieldStored = map[string]bool{}
+		fc.fieldStores = map[string][]*ssa.Store{}
 		var scan func(f *ssa.Function)
 		scan = func(f *ssa.Function) {
 			for _, b := range f.Blocks {
@@ -626,7 +634,11 @@ func (fc *fctx) canonicalFieldLoad(u *ssa.UnOp) ssa.Value {
 					switch x := in.(type) {
 					case *ssa.Store:
 						if fa, ok := x.Addr.(*ssa.FieldAddr); ok {
-							fc.fieldStored[fieldID(fa)] = true
+							if f == fc.fn {
+								fc.fieldStores[fieldID(fa)] = append(fc.fieldStores[fieldID(fa)], x)
+							} else {
+								fc.fieldStored[fieldID(fa)] = true // assigned by a closure: at an unknown time
+							}
 						}
 					case *ssa.UnOp:
 						if x.Op == token.MUL && f == fc.fn {
@@ -655,7 +667,63 @@ func (fc *fctx) canonicalFieldLoad(u *ssa.UnOp) ssa.Value {
 	if k == "" {
 		return nil
 	}
-	return fc.fieldCanon[k]
+	rep := fc.fieldCanon[k]
+	if rep == nil {
+		return nil
+	}
+	// A store to the field (through any pointer of the type) that can execute between the representative
+	// load and this one separates them. A store after both, or before both, does not.
+	if ri, ok := rep.(ssa.Instruction); ok && rep != ssa.Value(u) {
+		for _, st := range fc.fieldStores[fieldID(fa)] {
+			if instrReaches(ri, st) && instrReaches(st, u) {
+				return nil
+			}
+		}
+	} else if ok {
+		// the representative itself: only a loop through a store brings a different value back here
+		for _, st := range fc.fieldStores[fieldID(fa)] {
+			if instrReaches(ri, st) && instrReaches(st, ri) {
+				return nil
+			}
+		}
+	}
+	return rep
+}
+
+// instrReaches: can control flow from just after a to b (same function)?
+func instrReaches(a, b ssa.Instruction) bool {
+	if a.Parent() != b.Parent() {
+		return false
+	}
+	if a.Block() == b.Block() {
+		ia, ib := -1, -1
+		for i, in := range a.Block().Instrs {
+			if in == a {
+				ia = i
+			}
+			if in == b {
+				ib = i
+			}
+		}
+		if ia < ib {
+			return true
+		}
+	}
+	seen := map[*ssa.BasicBlock]bool{}
+	stack := append([]*ssa.BasicBlock(nil), a.Block().Succs...)
+	for len(stack) > 0 {
+		blk := stack[len(stack)-1]
+		stack = stack[:len(stack)-1]
+		if seen[blk] {
+			continue
+		}
+		seen[blk] = true
+		if blk == b.Block() {
+			return true
+		}
+		stack = append(stack, blk.Succs...)
+	}
+	return false
 }
 
 func fieldID(fa *ssa.FieldAddr) string {
